@@ -25,6 +25,8 @@ type slot struct {
 type Effects struct {
 	// AllowDynamic: calls of function values of these types are assumed not to mutate their arguments
 	AllowDynamic func(t types.Type) bool
+	// FollowCallResults: treat a pointer-like call result as possibly aliasing the call's pointer-like arguments
+	FollowCallResults bool
 	W     *World
 	memo  map[slot]int // 0 unknown, 1 in progress, 2 false, 3 true
 	why   map[slot]string
@@ -117,6 +119,17 @@ func (e *Effects) rootsOf(v ssa.Value) *rootSet {
 				walk(x.Call.Args[0])
 			} else {
 				rs.fresh = true
+				if e.FollowCallResults {
+					// conservative: a pointer-like result may alias any pointer-like argument (getters)
+					for _, a := range x.Call.Args {
+						if pointerLike(a.Type()) {
+							walk(a)
+						}
+					}
+					if x.Call.IsInvoke() {
+						walk(x.Call.Value)
+					}
+				}
 			}
 		case *ssa.FieldAddr:
 			walk(x.X)
